@@ -187,7 +187,12 @@ def build_reference(root: Path) -> dict:
         src = p.read_text()
         ref.setdefault('__digest__', {})[rel] = hashlib.sha256(src.encode()).hexdigest()
         tree = _Canon().visit(ast.parse(src))
+        from . import temps
+        import copy
         for q, fn in _functions(tree):
+            dup = q in ref.setdefault('__funcs__', {}).setdefault(rel, [])
+            ref['__funcs__'][rel].append(q)
+            # as written
             sg = signatures(fn)
             if sg:
                 ref.setdefault(rel, {})[q] = sg
@@ -197,6 +202,20 @@ def build_reference(root: Path) -> dict:
             cmps, tests = shapes(fn)
             if cmps or tests:
                 ref.setdefault('__shapes__', {}).setdefault(rel, {})[q] = {'cmp': sorted(cmps), 'if': sorted(tests)}
+            # flattened (single-use temporaries inlined), see temps.py
+            flat = copy.deepcopy(fn)
+            steps = temps.flatten(flat, record=True)
+            if dup:
+                # same qualified name twice (property getter/setter): positions would be ambiguous
+                ref.get('__temps__', {}).get(rel, {}).pop(q, None)
+            elif steps:
+                ref.setdefault('__temps__', {}).setdefault(rel, {})[q] = steps
+            sg = signatures(flat)
+            if sg:
+                ref.setdefault('__flat__', {}).setdefault(rel, {})[q] = sg
+            cmps, tests = shapes(flat)
+            if cmps or tests:
+                ref.setdefault('__flatshapes__', {}).setdefault(rel, {})[q] = {'cmp': sorted(cmps), 'if': sorted(tests)}
     return ref
 
 
@@ -292,45 +311,74 @@ def _load_ref():
     return _REF
 
 
-def normalise(tree: ast.Module, rel: str, digest: str | None = None) -> tuple[ast.Module, int]:
-    """Rename locals back to their reference names where the structural
-    signature matches uniquely.  Returns (tree, number of locals renamed)."""
-    if digest is not None and _load_ref().get('__digest__', {}).get(rel) == digest:
-        return tree, 0  # file is byte-identical to the reference: nothing to do
-    ref = _load_ref().get(rel) or {}
-    renamed = 0
-    for q, fn in list(_functions(tree)):
-        want = ref.get(q)
-        if not want:
-            continue
-        cur = signatures(fn)
-        by_sig_ref: dict[str, list[str]] = {}
-        for n, h in want.items():
-            by_sig_ref.setdefault(h, []).append(n)
-        by_sig_cur: dict[str, list[str]] = {}
-        for n, h in cur.items():
-            by_sig_cur.setdefault(h, []).append(n)
-        mapping = {}
-        for h, cn in by_sig_cur.items():
-            rn = by_sig_ref.get(h)
-            if rn and len(rn) == 1 and len(cn) == 1 and cn[0] != rn[0]:
-                # the reference name must not already be in use by another current local
-                if rn[0] not in cur:
-                    mapping[cn[0]] = rn[0]
-        if mapping:
-            renamed += len(mapping)
-            for st in fn.body:
-                _Sub(mapping).visit(st)
-    shp = _load_ref().get('__shapes__', {}).get(rel, {})
-    for q, fn in list(_functions(tree)):
-        sh = shp.get(q)
-        if not sh:
-            continue
+def _mapping(fn, want) -> dict[str, str]:
+    cur = signatures(fn)
+    by_sig_ref: dict[str, list[str]] = {}
+    for n, h in want.items():
+        by_sig_ref.setdefault(h, []).append(n)
+    by_sig_cur: dict[str, list[str]] = {}
+    for n, h in cur.items():
+        by_sig_cur.setdefault(h, []).append(n)
+    mapping = {}
+    for h, cn in by_sig_cur.items():
+        rn = by_sig_ref.get(h)
+        if rn and len(rn) == 1 and len(cn) == 1 and cn[0] != rn[0]:
+            # the reference name must not already be in use by another current local
+            if rn[0] not in cur:
+                mapping[cn[0]] = rn[0]
+    return mapping
+
+
+def _alpha_and_reshape(fn, want, sh) -> tuple[int, dict]:
+    n = 0
+    mapping = _mapping(fn, want) if want else {}
+    if mapping:
+        n += len(mapping)
+        for st in fn.body:
+            _Sub(mapping).visit(st)
+    if sh:
         r = _Reshape(sh['cmp'], sh['if'])
         fn.body = [r.visit(st) for st in fn.body]
-        renamed += r.n
+        n += r.n
+    return n, mapping
+
+
+def normalise(tree: ast.Module, rel: str, digest: str | None = None) -> tuple[ast.Module, int]:
+    """Bring the functions of a file that differs from the reference back to the
+    reference's spelling where that is behaviour-preserving: local names (by
+    structural signature), flipped comparisons / inverted branches, and
+    single-use temporaries (temps.py).  Returns (tree, number of rewrites)."""
+    R = _load_ref()
+    if digest is not None and R.get('__digest__', {}).get(rel) == digest:
+        return tree, 0  # file is byte-identical to the reference: nothing to do
+    import copy
+    from . import temps
+    known = set(R.get('__funcs__', {}).get(rel, []))
+    sig, shp = R.get(rel) or {}, R.get('__shapes__', {}).get(rel, {})
+    fsig, fshp = R.get('__flat__', {}).get(rel, {}), R.get('__flatshapes__', {}).get(rel, {})
+    tmp = R.get('__temps__', {}).get(rel, {})
+    done = 0
+    for q, fn in list(_functions(tree)):
+        if q not in known:
+            continue
+        ref_temps = sorted(s['name'] for s in tmp.get(q, []) if 'canon' not in s)
+        # (A) the function as written: same temporaries as the reference once names are normalised?
+        trial = copy.deepcopy(fn)
+        _alpha_and_reshape(trial, sig.get(q), shp.get(q))
+        own = sorted(s['name'] for s in temps.flatten(trial, record=True) if 'canon' not in s)
+        if own == ref_temps:
+            done += _alpha_and_reshape(fn, sig.get(q), shp.get(q))[0]
+            continue
+        # (B) temporaries were added or removed: compare in flattened form, then give the function the
+        #     reference's temporaries back (reextract_all, after call reshaping)
+        steps = temps.flatten(fn, record=True, keep_nodes=True)
+        n, mapping = _alpha_and_reshape(fn, fsig.get(q), fshp.get(q))
+        done += n + len(steps)
+        fn._own_steps = [(mapping.get(s['name'], s['name']), s['node']) for s in steps if 'canon' not in s]
+        fn._ref_names = set(sig.get(q) or ())
+        fn._flattened = True
     ast.fix_missing_locations(tree)
-    return tree, renamed
+    return tree, done
 
 
 def call_shapes(fn) -> dict[str, list]:
@@ -409,4 +457,31 @@ def reshape_calls(prog) -> int:
                 for v in c.args:
                     v._parent = c
                 done += 1
+    return done
+
+
+def reextract_all(prog) -> int:
+    """last normalisation step (after call reshaping) for functions that were flattened: re-create the
+    temporaries their reference versions have, then those of the function's own temporaries that carry a name
+    the reference function also uses as a local (a changed definition keeps its name for the rules to find)"""
+    from . import temps
+    ref = _load_ref()
+    tmp = ref.get('__temps__', {})
+    digests = ref.get('__digest__', {})
+    done = 0
+    for rel, m in prog.modules.items():
+        if digests.get(rel) == m.digest:
+            continue
+        for q, fi in m.functions.items():
+            if not getattr(fi.node, '_flattened', False):
+                continue
+            steps = tmp.get(rel, {}).get(q.split('@')[0]) or []
+            k = temps.reextract(fi.node, steps)
+            k += temps.restore_own(fi.node, [(n, v) for n, v in fi.node._own_steps if n in fi.node._ref_names])
+            done += k
+            ast.fix_missing_locations(fi.node)
+            for n in ast.walk(fi.node):
+                for ch in ast.iter_child_nodes(n):
+                    if not isinstance(ch, (ast.expr_context, ast.operator, ast.unaryop, ast.cmpop, ast.boolop)):
+                        ch._parent = n
     return done
